@@ -325,7 +325,7 @@ class Contract:
     def __init__(self, target, params, returns=None, requires=None, ensures=None, modifies=(),
                  loops=None, int_mode='math', merge=True, configs=None, trusted=False, note='',
                  raises=None, pure=True, inline=False, witnesses=None, props=(), self_rec=None,
-                 nothrow=True, cut_asserts=None, path_split=False, lemmas_used=(), flags=(), fuel=1, solver_opts=None, gen=None, stand_in=()):
+                 nothrow=True, cut_asserts=None, path_split=False, lemmas_used=(), flags=(), fuel=1, solver_opts=None, gen=None, stand_in=(), tactic=None):
         self.target = target
         self.params = params if callable(params) else list(params)   # [(name, Sort)] or callable(config)->list
         self.returns = returns              # Sort or callable(ctx)->Sort
@@ -347,6 +347,7 @@ class Contract:
         self.flags = set(flags)
         self.fuel = fuel
         self.solver_opts = solver_opts or {}
+        self.tactic = tactic
         self.stand_in = tuple(stand_in)     # 'kind:label' obligations NOT proved: covered only by the runtime-checked
                                             # stand-in (contract evaluated on generated inputs), reported as bounded
         self.gen = gen                      # optional input generator for the witness search: gen(rng, config)->typed args
